@@ -1337,8 +1337,10 @@ func checkCommandExitStatus(c *Ctx, r *Report, clause string) {
 			}
 		}
 	}
-	if n < 5 {
-		viol = fmt.Sprintf("expected the error-returning calls of the root, the three generate sub-commands' callbacks and Execute, found %d", n)
+	// (vacuity floor: the root command, at least one generate callback - the three may share one
+	// closure built by a factory - and Execute)
+	if n < 3 {
+		viol = fmt.Sprintf("expected the error-returning calls of the root, the generate sub-commands' callback(s) and Execute, found %d", n)
 	}
 	if len(sites) == 0 {
 		sites = []string{"cmd:0"}
